@@ -285,6 +285,16 @@ def declarations(f, match):
         s = toks[k].s
         if is_ident(s) and k + 1 <= f.b_hi + 1 and toks[k + 1].s in ("=", ";", ",", "[") and k - 1 >= f.b_lo:
             j = k - 1
+            if toks[j].s == "}":
+                # struct { … } name;   /   union tag { … } name;
+                o = match[j]
+                h = o - 1
+                if is_ident(toks[h].s) and toks[h].s not in ("struct", "union"):
+                    h -= 1
+                if toks[h].s in ("struct", "union"):
+                    add(s, Decl(toks[h].s + " {…}", 0, toks[k + 1].s == "[", False, toks[k].line))
+                k += 1
+                continue
             while j >= f.b_lo and (toks[j].s == "*" or (re.fullmatch(r"[A-Za-z_]\w*", toks[j].s) and toks[j].s not in KEYWORDS)):
                 j -= 1
             boundary_ok = j < f.b_lo or toks[j].s in (";", "{", "}")
@@ -480,7 +490,7 @@ def operand(ctx, f, lo, hi, why):
         # a local byte pointer: where does it point?  every value assigned to it must not be the address of a wider object
         prov = provenance(ctx, f, s)
         if prov is not None:
-            return prov, d.ctype() + " = " + prov
+            return prov, d.ctype() + " pointing to an object of %s bytes" % prov.split()[-1]
     return ".bytes", d.ctype()
 
 
